@@ -15,3 +15,5 @@ open Comrak.C14
 #print axioms no_disallowed_survives_formfeed
 #print axioms drv_survivors_eq
 #print axioms inline_first_not_disallowed
+#print axioms tagfilterBlock_local
+#print axioms disallowed_neutralised_in_context
